@@ -136,6 +136,11 @@ theorem wakeLoop_cfg (fuel : Nat) : ∀ (db : DB) (k : Nat) (out : List Reply), 
   unfold ackDone
   cases classifyAck db hid ok <;> unfold applyAck <;> simp
 
+@[simp] theorem relockHold_cfg (db : DB) (c : Cmd) (h : Nat) : (db.relockHold c h).cfg = db.cfg := by
+  unfold DB.relockHold; simp only []; split <;> split <;> simp [pushJ_tab, pushJ_cfg]
+@[simp] theorem dropWaiter_cfg (db : DB) (hid : Nat) : (db.dropWaiter hid).cfg = db.cfg := by
+  unfold DB.dropWaiter; simp only []; split <;> simp
+
 theorem opLock_cfg (db : DB) (c : Cmd) : (opLock db c).1.cfg = db.cfg := by
   unfold opLock
   cases classifyLock db c with
@@ -143,7 +148,7 @@ theorem opLock_cfg (db : DB) (c : Cmd) : (opLock db c).1.cfg = db.cfg := by
   | ackWaiting h => rfl
   | relockRefused h => rfl
   | timeout => rfl
-  | relock h => unfold applyLock; simp only []; split <;> split <;> simp [pushJ_tab, pushJ_cfg]
+  | relock h => unfold applyLock; simp
   | grant => unfold applyLock; simp only []; split <;> simp
   | ackGrant => unfold applyLock; simp only []; split <;> simp
   | queue => unfold applyLock; simp
@@ -155,7 +160,7 @@ theorem opUnlock_cfg (db : DB) (c : Cmd) : (opUnlock db c).1.cfg = db.cfg := by
 theorem fireTimeout_cfg (db : DB) (hid : Nat) : (fireTimeout db hid).1.cfg = db.cfg := by
   unfold fireTimeout; simp only []; split
   · simp
-  · dsimp only; split <;> simp
+  · simp
 
 theorem fireExpire_cfg (db : DB) (hid : Nat) : (fireExpire db hid).1.cfg = db.cfg := by
   unfold fireExpire; simp only []; split <;> simp
